@@ -64,3 +64,24 @@ def lemma_response_roundtrip(resp, error_cls):
         # typed except clauses work: the class registered for the code, else the supplied base class
         assert class_is(back._error, JsonRpcErrorMeta.__errors_mapping__.get(resp._error.code, error_cls))
 
+
+
+from spec.prims import closure_func, closure_var, method_value
+
+
+@lemma(props=['C19', 'C09', 'C07'])
+def lemma_send_stack_order():
+    """C19 (every send ATTEMPT is traced) / C09: the client's _send is retried(traced(raw _send)) - the retry loop is the
+    OUTER layer, so each attempt runs through the tracing layer.  The decorator expressions of the real class bodies
+    are evaluated; the layers themselves are under contract (RetriedWrapper, TracedWrapper, RawSendSingle).  This pins
+    the composition the assumed SendStack contract describes."""
+    s = method_value('pjrpc.client.client:AbstractClient._send')
+    assert closure_func(s) == 'pjrpc.client.client:AbstractClient.retried.<locals>.wrapper'
+    t = closure_var(s, 'method')
+    assert closure_func(t) == 'pjrpc.client.client:AbstractClient.traced.<locals>.wrapper'
+    assert closure_func(closure_var(t, 'method')) == 'pjrpc.client.client:AbstractClient._send'
+    a = method_value('pjrpc.client.client:AbstractAsyncClient._send')
+    assert closure_func(a) == 'pjrpc.client.client:AbstractAsyncClient.retried.<locals>.wrapper'
+    u = closure_var(a, 'method')
+    assert closure_func(u) == 'pjrpc.client.client:AbstractAsyncClient.traced.<locals>.wrapper'
+    assert closure_func(closure_var(u, 'method')) == 'pjrpc.client.client:AbstractAsyncClient._send'
